@@ -59,6 +59,11 @@ func checkC07(c C07Case) *Violation {
 	if err != nil {
 		return vio("write-failed", "%v\nargs=%v\n%s", err, d.Flags.Argv(), d.YAML())
 	}
+	return compareSettings(d, song)
+}
+
+// compareSettings: tempo / meter / key signature / texts / velocities of a decoded song against the model.
+func compareSettings(d Doc, song *smfread.Song) *Violation {
 	ctx := fmt.Sprintf("\nargs=%v\n%s", d.Flags.Argv(), d.YAML())
 	ms := d.Model(song.Division)
 	obs, _ := Observed(song)
